@@ -1084,6 +1084,19 @@ fn build_case(phase: &str, bytes: &[u8], ctx: &mut Ctx) -> Value {
     labels.insert(format!("hazard:{}", hz.tag()));
 
     let mut text = render_types(&types, &mut d);
+    // a user trait whose method is called like the derived one, implemented for a derived type:
+    // `v.to_string()` / `v.to_json()` still mean the derived (inherent) method
+    // (not next to a user type that is itself called `Self`: the trait's `Self` would name it)
+    if hz == Hazard::None && !types.iter().any(|t| t.name == "Self" || t.name == "Named18") && d.chance(40) {
+        let (ti, _) = &vals[0];
+        let t = &types[*ti];
+        let m = if t.ts && (!t.tj || d.bool()) { "to_string" } else { "to_json" };
+        text.push_str(&format!(
+            "trait Named18 {{\n    fn {m}(Self) -> string;\n}}\n\nimpl Named18 for {n} {{\n    fn {m}(self: {n}) -> string {{\n        \"from the trait\"\n    }}\n}}\n\n",
+            n = t.name
+        ));
+        labels.insert("trait-method-named-like-derived".into());
+    }
     text.push_str("fn main() {\n");
     let mut prints = vec![];
     let mut nontrivial = false;
